@@ -205,8 +205,41 @@ def _return_address(chk: Check, ctx: Any) -> None:
     if next_id_rel is not None:
         env[f"{cnt}.next_id"] = (0, next_id_rel)
     lenvar = None
+    # the other spelling: the count is taken once in __init__ from the blueprint list (which nothing replaces or changes afterwards)
+    count_attr = None
+    mcls = repo.cls(f"{MACRO}.ExplorerScriptMacro")
+    init = mcls.methods.get("__init__")
+    if init is not None:
+        for n in walk_no_nested(init):
+            if isinstance(n, ast.Assign) and len(n.targets) == 1 and astq.self_attr(n.targets[0]) and isinstance(n.value, ast.Call) \
+                    and dotted(n.value.func) == "len" and n.value.args and isinstance(n.value.args[0], (ast.ListComp, ast.GeneratorExp)):
+                g = n.value.args[0].generators[0]
+                if len(g.ifs) == 1 and norm(g.ifs[0]) == f"not isinstance({norm(g.target)}, SsbLabel)" and norm(g.iter) in ("blueprints", "self.blueprints") \
+                        and norm(n.value.args[0].elt) == norm(g.target):
+                    count_attr = astq.self_attr(n.targets[0])
+        if count_attr is not None:
+            stable = True
+            for mname, m in mcls.methods.items():
+                for n in walk_no_nested(m):
+                    tg = n.targets if isinstance(n, ast.Assign) else [n.target] if isinstance(n, (ast.AugAssign, ast.AnnAssign)) else []
+                    for t in tg:
+                        if astq.self_attr(t) in (count_attr, "blueprints") and mname != "__init__":
+                            stable = False
+                    if isinstance(n, ast.Call) and isinstance(n.func, ast.Attribute) and astq.self_attr(n.func.value) == "blueprints" \
+                            and n.func.attr in ("append", "extend", "insert", "pop", "remove", "clear", "sort", "reverse"):
+                        stable = False
+            if stable:
+                env[f"self.{count_attr}"] = (1, 0)
+            else:
+                count_attr = None
     for n in walk_no_nested(fn):
         if isinstance(n, ast.Assign) and isinstance(n.targets[0], ast.Name):
+            if count_attr is not None and f"self.{count_attr}" in norm(n.value):
+                v0 = _linear(n.value, env)
+                if v0 is not None:
+                    lenvar = n.targets[0].id
+                    env[lenvar] = v0
+                    continue
             for c in ast.walk(n.value):
                 if isinstance(c, ast.Call) and dotted(c.func) == "len" and c.args and isinstance(c.args[0], (ast.ListComp, ast.GeneratorExp)):
                     comp = c.args[0]
